@@ -345,11 +345,28 @@ def run(tier, seed, replay=None):
 
     if spec_m:
         def trimmed(m):
-            """grammar of a case without the search rules (around_<n>) other than the one that fails: they are not called by anything"""
+            """grammar of a case without the rules that the failing rule, WHITESPACE and COMMENT cannot reach (the other members of a
+            family / the other search rules): nothing calls them.  Only for grammars printed one rule per line; otherwise unchanged."""
             g, r = field(m["case"], "g"), field(m["case"], "r")
             lines = [l for l in g.split("\\n") if l.strip()]
-            keep = [l for l in lines if not l.startswith("around_") or l.startswith(r + " =")]
-            return "\\n".join(keep) + "\\n" if r.startswith("around_") and len(keep) < len(lines) else g
+            rules = {}
+            for l in lines:
+                mm = re.match(r"^([A-Za-z_][A-Za-z0-9_]*) = [_@$!]?\{ (.*) \}$", l)
+                if not mm or mm.group(1) in rules:
+                    return g
+                body = re.sub(r"'(?:[^'\\]|\\.)+'", " ", re.sub(r'"(?:[^"\\]|\\.)*"', " ", mm.group(2)))
+                rules[mm.group(1)] = (l, set(re.findall(r"[A-Za-z_][A-Za-z0-9_]*", body)))
+            if r not in rules:
+                return g
+            seen, todo = set(), [r, "WHITESPACE", "COMMENT"]
+            while todo:
+                n = todo.pop()
+                if n in seen or n not in rules:
+                    continue
+                seen.add(n)
+                todo.extend(rules[n][1])
+            keep = [l for l in lines if re.match(r"^([A-Za-z_][A-Za-z0-9_]*) ", l).group(1) in seen]
+            return "\\n".join(keep) + "\\n" if len(keep) < len(lines) else g
         worst = min(spec_m, key=lambda m: (len(trimmed(m)), len(field(m["case"], "in"))))
         c = worst["case"]
         gtrim = trimmed(worst)
